@@ -93,3 +93,63 @@ def selector(reader, names=None):
     if isinstance(reader, ast.Attribute) and names and reader.attr in names:
         return reader.value, names.index(reader.attr)
     return None
+
+
+def producer_record(prog, f):
+    """(record ClassInfo, field names) when every value function/property `f` returns is built by one record constructor; else None"""
+    from .types import walk_own
+
+    rets = [n.value for n in walk_own(f.node) if isinstance(n, ast.Return) and n.value is not None]
+    rcs = []
+    for r in rets:
+        rc = record_class(prog, f.module, r.func) if isinstance(r, ast.Call) else None
+        if rc is None:
+            return None
+        rcs.append(rc)
+    if not rcs or any(rc is not rcs[0] for rc in rcs):
+        return None
+    rc = rcs[0]
+    return rc, [n.target.id for n in rc.node.body if isinstance(n, ast.AnnAssign) and isinstance(n.target, ast.Name)]
+
+
+class TupleView(ast.NodeTransformer):
+    """Reads of a record-valued expression written as reads of the tuple it is: `B.field` -> `B[i]`; `B.prop`, prop a one-expression
+    property of the record class, -> that expression with `self.field` -> `B[i]`.  `is_base(expr)` says which expressions hold the record."""
+
+    def __init__(self, prog, rc, fields, is_base):
+        self.prog, self.rc, self.fields, self.is_base = prog, rc, fields, is_base
+
+    def visit_Attribute(self, n):
+        self.generic_visit(n)
+        if not self.is_base(n.value):
+            return n
+        if n.attr in self.fields:
+            return ast.copy_location(ast.Subscript(value=n.value, slice=ast.Constant(value=self.fields.index(n.attr)), ctx=ast.Load()), n)
+        pr = self.rc.methods.get(n.attr) if hasattr(self.rc, "methods") else None
+        if pr is not None and pr.kind in ("property", "lazyproperty"):
+            body = [s_ for s_ in pr.node.body if not (isinstance(s_, ast.Expr) and isinstance(s_.value, ast.Constant))]
+            if len(body) == 1 and isinstance(body[0], ast.Return) and body[0].value is not None:
+                import copy
+
+                base, fields = n.value, self.fields
+
+                class S(ast.NodeTransformer):
+                    def visit_Attribute(self_, x):
+                        if isinstance(x.value, ast.Name) and x.value.id == "self" and x.attr in fields:
+                            return ast.Subscript(value=copy.deepcopy(base), slice=ast.Constant(value=fields.index(x.attr)), ctx=ast.Load())
+                        return self_.generic_visit(x)
+                src = body[0].value
+                n_self = sum(1 for x in ast.walk(src) if isinstance(x, ast.Name) and x.id == "self")
+                n_fld = sum(1 for x in ast.walk(src) if isinstance(x, ast.Attribute) and isinstance(x.value, ast.Name) and x.value.id == "self" and x.attr in fields)
+                if n_self == n_fld:   # the record itself is used only through its fields
+                    return ast.copy_location(S().visit(copy.deepcopy(src)), n)
+        return n
+
+
+def ctor_to_tuple(prog, module, e):
+    """a record construction written as the tuple of its components (other expressions unchanged)"""
+    if isinstance(e, ast.Call):
+        cs = components(prog, module, e)
+        if cs is not None and fields_of(prog, module, e.func) is not None:
+            return ast.copy_location(ast.Tuple(elts=list(cs), ctx=ast.Load()), e)
+    return e
